@@ -15,17 +15,9 @@ import (
 // 如: "to=1~2|大于等于 1 且小于等于 2", key 为 "to", value 为 "1~2", cusMsg 为 "大于等于 1 且小于等于 2"
 func ParseValidNameKV(validName string) (key, value, cusMsg string) {
 	tmp := validName
-	// 因为 validName 中的 k, v 通过 = 连接
-	splitIndex := strings.Index(tmp, "=")
-
-	// 如果没有则代表 validName 不为 k=v 类型, 只有一个字段如: required
-	if splitIndex == -1 {
-		// 需要确定下是否包含自定义 msg, 格式为: validName|xxx, 如: required|必填
-		key = tmp
-		cusMsgIndex := strings.Index(tmp, "|")
-		if cusMsgIndex != -1 && len(tmp)-1 > cusMsgIndex+1 {
-			key = tmp[:cusMsgIndex]
-			cusMsg = tmp[cusMsgIndex+1:]
+	// 自定义 msg 通过第一个 "|" 分割, 格式为: validName|xxx, 如: required|必填; "|" 之后的内容(包含 "=")都属于 msg
+	if cusMsgIndex := strings.Index(tmp, "|"); cusMsgIndex != -1 {
+		if cusMsg = tmp[cusMsgIndex+1:]; cusMsg != "" {
 			// 根据如果说明有中文就加前缀为: 说明; 否则为 Explain
 			if match := IncludeZhRe.MatchString(cusMsg); match {
 				cusMsg = ExplainZh + " " + cusMsg
@@ -33,23 +25,18 @@ func ParseValidNameKV(validName string) (key, value, cusMsg string) {
 				cusMsg = ExplainEn + " " + cusMsg
 			}
 		}
-		return
+		tmp = tmp[:cusMsgIndex]
 	}
 
+	// 因为 validName 中的 k, v 通过 = 连接
+	// 如果没有则代表 validName 不为 k=v 类型, 只有一个字段如: required
+	splitIndex := strings.Index(tmp, "=")
+	if splitIndex == -1 {
+		key = tmp
+		return
+	}
 	key = tmp[:splitIndex]
 	value = tmp[splitIndex+1:]
-	// 需要确定下是否包含自定义 msg, 格式为: validName|xxx, 如: "to=1~2|大于等于 1 且小于等于 2"
-	cusMsgIndex := strings.Index(value, "|")
-	if cusMsgIndex != -1 && len(value)-1 > cusMsgIndex+1 {
-		// 根据如果说明有中文就加前缀为: 说明; 否则为 Explain
-		cusMsg = value[cusMsgIndex+1:]
-		if match := IncludeZhRe.MatchString(cusMsg); match {
-			cusMsg = ExplainZh + " " + cusMsg
-		} else {
-			cusMsg = ExplainEn + " " + cusMsg
-		}
-		value = value[:cusMsgIndex]
-	}
 	return
 }
 
